@@ -198,6 +198,7 @@ class MinErrorFlow():
         )
         self.ub = self.w_max * self.G.number_of_edges()
 
+        self._solver_holds_second_stage = False
         self._create_solver()
 
         self._encode_flow()
@@ -389,6 +390,13 @@ class MinErrorFlow():
         """
         utils.logger.info(f"{__name__}: solving with graph id = {utils.fpid(self.G)}")
         start_time = time.perf_counter()
+        if self._solver_holds_second_stage:
+            # An earlier call of solve() left the second-stage model (minimum number of different flow values) in
+            # self.solver: start again from the first-stage model (minimum sum of errors)
+            self._create_solver()
+            self._encode_flow()
+            self._encode_min_sum_errors_objective()
+            self._solver_holds_second_stage = False
         self.solver.optimize()
         self.solve_statistics[f"milp_solve_time"] = (time.perf_counter() - start_time)
 
@@ -426,6 +434,7 @@ class MinErrorFlow():
 
                 utils.logger.info(f"{__name__}: re-solving now by minimizing the number of different flow values within 1 + epsilon tolerance to the objective value, i.e. <=(1+{self.different_flow_values_epsilon})*{objective_value}")
                 self._create_solver()
+                self._solver_holds_second_stage = True
                 self._encode_flow()
                 self._encode_different_flow_values_and_objective(
                     edge_subset=edge_subset,
